@@ -33,8 +33,14 @@ def enc_value(v):
 
 
 class T:
-    def __init__(self, obj, ks, kdt, wide, kind):
+    def __init__(self, obj, ks, kdt, wide, kind, src_keys=None, src_vals=None):
         self.obj, self.ks, self.kdt, self.wide, self.kind = obj, ks, kdt, wide, kind
+        self.src_keys, self.src_vals = src_keys, src_vals          # the caller's arrays the table was built from
+        self.src_snapshot = (None if src_keys is None else src_keys.copy(), None if src_vals is None else src_vals.copy())
+
+    def sources_unchanged(self):
+        k0, v0 = self.src_snapshot
+        return (k0 is None or np.array_equal(k0, self.src_keys)) and (v0 is None or np.array_equal(v0, self.src_vals))
 
 
 def keys_array(ks, kdt):
@@ -74,18 +80,25 @@ def step(objs, st, o):
         keys = keys_array(ks, kdt)
         vdt = o.get("vdt", "i8")
         m = None if (mod == 0 or o.get("default_mod")) else int(mod)
+        reuse = objs[st[6] - 1] if len(st) > 6 and st[6] and st[6] <= len(objs) else None
+        varr = None
         try:
+            if reuse is not None and reuse.src_keys is not None:
+                keys = reuse.src_keys                                  # a second table built from the SAME caller arrays
             if kind == "set":
                 obj = HashSet(keys if o.get("keys_as", "array") == "array" else keys.tolist(), mod=m)
             elif kind == "counter":
-                v = vals[1] if vals[0] == "scalar" else np.array(vals[1], dtype=np.int64)
+                if vals[0] != "scalar":
+                    varr = reuse.src_vals if (reuse is not None and reuse.src_vals is not None) else np.array(vals[1], dtype=np.int64)
+                v = vals[1] if vals[0] == "scalar" else varr
                 obj = Counter(keys, v, mod=m) if not (vals[0] == "scalar" and vals[1] == 0 and o.get("omit_zero")) else Counter(keys, mod=m)
             else:
                 if vals[0] == "scalar":
                     obj = HashTable(keys, vals[1], mod=m, value_dtype=DT2NP[vdt])
                 else:
-                    obj = HashTable(keys, np.array(vals[1], dtype=DT2NP[vdt]), mod=m)
-            objs.append(T(obj, ks, kdt, wide, kind))
+                    varr = reuse.src_vals if (reuse is not None and reuse.src_vals is not None) else np.array(vals[1], dtype=DT2NP[vdt])
+                    obj = HashTable(keys, varr, mod=m)
+            objs.append(T(obj, ks, kdt, wide, kind, keys, varr))
             return ["new", len(objs)]
         except Exception as e:
             return ["obs", ["raised", type(e).__name__]]
@@ -154,5 +167,9 @@ def run_program(prog, opts=None, observe="all"):
         else:
             res = step(objs, st, o)
         ob = [shadow(t) for t in objs] if (observe == "all" or i == len(prog) - 1) else None
+        if ob is not None:
+            for j, t in enumerate(objs):
+                if not t.sources_unchanged():                          # the arrays a table was built from belong to the caller
+                    ob[j] = ["raised", "CallerArrayModified"]
         out.append({"res": res, "obs": ob})
     return out
